@@ -196,6 +196,7 @@ func c09Budget(run *vlib.Run) time.Duration {
 
 func TestVerifC09(t *testing.T) {
 	run := vlib.Start(t, "C09")
+	run.SetCaseTimeout(0) // concurrent histories take seconds; the history watchdog below bounds them
 	defer run.Finish()
 	oldYield := ksync.VerifSetYieldFn(runtime.Gosched)
 	defer ksync.VerifSetYieldFn(oldYield)
